@@ -31,6 +31,8 @@ pub struct ReadProblem {
     pub preds: Vec<(String, usize)>,
     /// the file as written
     pub text: String,
+    /// declared symbolic constants
+    pub symbols: Vec<String>,
 }
 
 static COUNTER: std::sync::atomic::AtomicUsize = std::sync::atomic::AtomicUsize::new(0);
@@ -77,7 +79,7 @@ pub fn run_verify_raw(flags: &[&str], files: &[(&str, &str)]) -> Result<Vec<(Str
 
 pub fn read_problem(file: &str, text: &str) -> ReadProblem {
     match tff::parse(text) {
-        Err(e) => ReadProblem { file: file.into(), formulas: vec![], wf_errors: vec![format!("not valid TFF: {e}")], readable: false, preds: vec![], text: text.to_string() },
+        Err(e) => ReadProblem { file: file.into(), formulas: vec![], wf_errors: vec![format!("not valid TFF: {e}")], readable: false, preds: vec![], text: text.to_string(), symbols: vec![] },
         Ok(p) => {
             let (sig, mut errs) = p.check();
             let mut formulas = Vec::new();
@@ -88,7 +90,8 @@ pub fn read_problem(file: &str, text: &str) -> ReadProblem {
                 }
             }
             let preds = p.entries.iter().filter_map(|e| match &e.decl { Some((n, tff::Decl::Pred(a))) if !n.starts_with("p__") => Some((n.clone(), a.len())), _ => None }).collect();
-            ReadProblem { file: file.into(), formulas, wf_errors: errs, readable, preds, text: text.to_string() }
+            let symbols = p.entries.iter().filter(|e| e.name.starts_with("type_symbol")).filter_map(|e| e.decl.as_ref().map(|d| d.0.clone())).collect();
+            ReadProblem { file: file.into(), formulas, wf_errors: errs, readable, preds, text: text.to_string(), symbols }
         }
     }
 }
@@ -100,6 +103,31 @@ pub fn family<'a>(ps: &'a [ReadProblem], prefix: &str) -> Vec<&'a ReadProblem> {
     }).collect();
     v.sort_by_key(|x| x.0);
     v.into_iter().map(|x| x.1).collect()
+}
+
+/// C12: the symbol-order axioms form one chain p__less__(s1, s2), p__less__(s2, s3), ... over exactly the declared symbolic constants,
+/// in the standard (byte-wise lexicographic) order; returns a complaint otherwise
+pub fn symbol_chain_complaint(p: &ReadProblem) -> Option<String> {
+    let mut links: Vec<(String, String)> = Vec::new();
+    for (name, _, f) in &p.formulas {
+        if !name.starts_with("symbol_order") { continue; }
+        match f {
+            fol::Formula::AtomicFormula(fol::AtomicFormula::Comparison(c)) if c.guards.len() == 1 && c.guards[0].relation == fol::Relation::Less => match (&c.term, &c.guards[0].term) {
+                (fol::GeneralTerm::SymbolicTerm(fol::SymbolicTerm::Symbol(a)), fol::GeneralTerm::SymbolicTerm(fol::SymbolicTerm::Symbol(b))) => links.push((a.clone(), b.clone())),
+                _ => return Some(format!("{name} does not compare two symbolic constants")),
+            },
+            _ => return Some(format!("{name} is not of the form p__less__(f__symbolic__(a), f__symbolic__(b))")),
+        }
+    }
+    let mut want: Vec<String> = p.symbols.clone();
+    want.sort();
+    let expected: Vec<(String, String)> = want.windows(2).map(|w| (w[0].clone(), w[1].clone())).collect();
+    let mut got = links.clone();
+    got.sort();
+    let mut exp = expected.clone();
+    exp.sort();
+    if got != exp { return Some(format!("the symbol-order axioms link {:?} but the declared constants {:?} need the chain {:?}", links, want, expected)); }
+    None
 }
 
 pub fn is_preamble(name: &str) -> bool { name.ends_with("_ax") || name.starts_with("symbol_order") }
@@ -132,6 +160,7 @@ const FO: &[&str] = &[
 const SPECIAL: &[&str] = &[
     "", ":- 1 < 2. :- 2 > 3. :- 3 > 4.", ":- 1 > 2.", ":- 1 < 2.", ":- 2 > 3. :- 1 < 2.",
     "p(v9) :- q(v10). p(v10) :- q(b).", "p(v10) :- q(v9).", "p(a10) :- q(a9), q(a1).", "p(aa) :- q(aB), q(a_c), q(b).", "p(nodea) :- q(nodeA).", "p(nodeA) :- q(nodea), q(zZ), q(zz), q(z_z), q(z0), q(zA).",
+    "p(X) :- q(X), X != aa, X < bb.", "p(cc) :- q(X), not r(X, dd), X = ee..ff.", "{p(X)} :- q(X), X >= zz. :- q(yy), not p(xx).",
     "_p(X) :- q(X), X != _c, X != d.", "_p(_c) :- not _q(_c). _q(X) :- _p(X), X = _d.", "p(X) :- _r(X, _c), not p(_c).",
     "w(X, X, X, X, X, X, X, X, X, Y) :- q(X), q(Y).", "w(X, X, X, X, X, X, X, X, Y, X) :- q(X), q(Y).", "{w(X, X, X, X, X, X, X, X, X, Y)} :- q(X), q(Y).",
 ];
@@ -140,6 +169,7 @@ const FLAGS: &[&[&str]] = &[
     &[], &["--decomposition", "independent"], &["--no-simplify"], &["--no-eq-break"], &["--no-simplify", "--no-eq-break"], &["--decomposition", "independent", "--no-simplify"],
     &["--decomposition", "independent", "--no-eq-break"], &["--decomposition", "independent", "--no-simplify", "--no-eq-break"],
     &["--formula-representation", "mu"], &["--formula-representation", "mu", "--decomposition", "independent", "--no-simplify"], &["--formula-representation", "mu", "--no-eq-break"],
+    &["--direction", "forward"], &["--direction", "backward", "--no-simplify"], &["--direction", "backward", "--formula-representation", "mu"], &["--direction", "forward", "--decomposition", "independent", "--no-eq-break"],
 ];
 
 pub struct VStats { pub pairs: usize, pub runs: usize, pub problems: usize, pub evaluations: usize }
@@ -225,6 +255,7 @@ pub fn check_pair(left: &str, right: &str, flag_sets: &[&[&str]], n_interp: usiz
             for e in &p.wf_errors { fails.push(Failure { property: "C09", input: what.clone(), detail: format!("{}: {e}", p.file) }); }
             // C12: the axioms anthem adds hold in the standard interpretation
             let empty = Ht { here: Atoms::new(), there: Atoms::new(), consts: HashMap::new() };
+            if let Some(m) = symbol_chain_complaint(p) { fails.push(Failure { property: "C12", input: what.clone(), detail: format!("{}: {m}", p.file) }); }
             for (name, role, f) in &p.formulas {
                 if is_preamble(name) && (role != "axiom" || !cl_sat(f, &dom, &empty)) { fails.push(Failure { property: "C12", input: what.clone(), detail: format!("{}: axiom {name} is false in the standard interpretation", p.file) }); }
             }
@@ -233,6 +264,9 @@ pub fn check_pair(left: &str, right: &str, flag_sets: &[&[&str]], n_interp: usiz
         let (fw, bw) = (family(&problems, "forward"), family(&problems, "backward"));
         // the direction of a problem is read off its file name; if the naming scheme is not recognised the harness cannot judge
         if fw.len() + bw.len() != problems.len() { fails.push(Failure { property: "harness", input: what.clone(), detail: format!("problem files are not named forward*/backward*: {:?}", problems.iter().map(|p| p.file.clone()).collect::<Vec<_>>()) }); return; }
+        let only_fw = flags.windows(2).any(|w| w[0] == "--direction" && w[1] == "forward");
+        let only_bw = flags.windows(2).any(|w| w[0] == "--direction" && w[1] == "backward");
+        if (only_fw && !bw.is_empty()) || (only_bw && !fw.is_empty()) { fails.push(Failure { property: "C03", input: what.clone(), detail: format!("{} forward and {} backward problems although one direction was asked for", fw.len(), bw.len()) }); }
         let mut got = Vec::new();
         for (k, m) in samples.iter().enumerate() {
             st.evaluations += 1;
@@ -243,15 +277,17 @@ pub fn check_pair(left: &str, right: &str, flag_sets: &[&[&str]], n_interp: usiz
                 } } }
             }
             let g = (fw.iter().any(|p| refutes(p, &dom, &cm)), bw.iter().any(|p| refutes(p, &dom, &cm)));
-            if g != expected[k] {
+            // a direction that was not asked for has no problems: nothing is refuted there
+            let want = (expected[k].0 && !only_bw, expected[k].1 && !only_fw);
+            if g != want {
                 fails.push(Failure { property: "C03", input: what.clone(), detail: format!(
-                    "<{}>: forward problems refuted: {}, expected {}; backward problems refuted: {}, expected {} (expected = h ⊆ t and the one program satisfied, the other not)", m.show(), g.0, expected[k].0, g.1, expected[k].1) });
+                    "<{}>: forward problems refuted: {}, expected {}; backward problems refuted: {}, expected {} (expected = h ⊆ t and the one program satisfied, the other not)", m.show(), g.0, want.0, g.1, want.1) });
                 got.push(g);
                 break;
             }
             got.push(g);
         }
-        per_flags.insert(flags.join(" "), got);
+        if !only_fw && !only_bw { per_flags.insert(flags.join(" "), got); }
     }
     // C19: the families agree with one another
     let mut it = per_flags.iter();
